@@ -847,9 +847,9 @@ void h_tok_equiv(void)
 		"C15 the line is split on unquoted white space with single- or double-quoted arguments exactly as the reference tokenizer does (first token = command name, at most four)");
 	VASSERT(!(core && R.n == 0) || C.argv[0][0] == 0, "C15 an empty line has an empty command name");
 	VCOVER(core && R.n == 4 && !fourth_tail, "four tokens");
-	VCOVER(core && R.n == 3 && R.quoted[1] && R.len[1] == 3 && !R.quoted[2], "quoted argument with a blank inside");
+	VCOVER(core && R.n == 2 && R.quoted[1] && R.len[1] == 3 && orig[R.start[1] + 1] == ' ', "quoted argument with a blank inside");
 	VCOVER(core && R.n == 2 && R.quoted[1] && orig[R.start[1] + 1] == '"', "other quote inside a quoted argument");
-	VCOVER(core && R.n > 4, "more than four tokens");
+	VCOVER(core && R.n == 4 && fourth_tail, "text after the fourth token");
 }
 
 /* ================================================================================================ command table */
@@ -861,8 +861,8 @@ static unsigned arbitrary_table(void)
 	VASSUME(n <= TBL_SLOTS - 1);
 	for (unsigned i = 0; i < TBL_SLOTS; i++) {
 		for (unsigned j = 0; j < NNAME; j++)
-			NAMES[i][j] = (char)IN.names[i * NNAME + j];
-		VASSUME(NAMES[i][0] != 0 && NAMES[i][NNAME - 1] == 0);
+			NAMES[i][j] = j + 1 < NNAME ? (char)IN.names[i * NNAME + j] : 0;
+		VASSUME(NAMES[i][0] != 0);
 	}
 	table_of(n);
 	for (unsigned i = 0; i + 1 < TBL_SLOTS; i++)
@@ -913,8 +913,8 @@ void h_register(void)
 	VERIF_LOAD_INPUTS();
 	unsigned n = arbitrary_table();
 	for (unsigned j = 0; j < NNAME; j++)
-		NEWNAME[j] = (char)IN.newname[j];
-	VASSUME(NEWNAME[0] != 0 && NEWNAME[NNAME - 1] == 0);
+		NEWNAME[j] = j + 1 < NNAME ? (char)IN.newname[j] : 0;
+	VASSUME(NEWNAME[0] != 0);
 	NEWCMD.name = NEWNAME;
 	NEWCMD.fn = cmd_generic;
 	/* where the statement puts it: after every name that does not compare greater */
